@@ -33,6 +33,15 @@ CHECKS.update({
    note="same trusted base as C01; 'both objno and multiobj given' accepts either documented behaviour"),
 })
 
+CHECKS.update({
+ "C09": dict(level="exploration", engine="hypothesis", design="3/C09",
+   technique="Hypothesis-generated driver runs (models of every operator mix, corrupted NL bytes, option strings, name files, scripted solver answers, unwritable .sol) judged by an independent .sol parser and outcome classes",
+   text="Each generated run of the real driver must end in a complete, dimensionally right .sol (failure code 200-299/500-999 plus message when the solver was "
+        "never reached) or in a non-zero exit with a message; crashes, sanitizer reports, malformed or dimensionally wrong .sol files, silent exits and "
+        "failures reported with a 'solved' code are violations. Guard expiry and allocator-limit aborts are inconclusive.",
+   note="termination is not decided by testing; disk-full faults cannot be injected in this sandbox"),
+})
+
 NOT_APPLICABLE = []
 
 def main():
